@@ -159,7 +159,9 @@ inductive MimeFeature where
   | off | mime03 | httpTypes
 deriving Repr, DecidableEq
 
-def asciiLower (s : Bytes) : Bytes := s.map fun b => if 65 ≤ b && b ≤ 90 then b + 32 else b
+def lowerB (b : UInt8) : UInt8 := if 65 ≤ b && b ≤ 90 then b + 32 else b
+
+def asciiLower (s : Bytes) : Bytes := s.map lowerB
 
 def lookupS (rows : List (String × String)) (dflt : String) (k : Bytes) : Bytes :=
   match rows.find? (fun r => str r.1 == k) with
